@@ -13,7 +13,8 @@ REQUIRED = ['getNBest_scale', 'plurality_scale', 'highestAverages_scale', 'sumVa
             'relativeThreshold_scale', 'quotaDistributor_scale', 'largestRemainder_scale',
             'rankedToPositional_linear', 'approvalToSimple_linear', 'rankedToCondorcet_linear', 'positionalRule_scale',
             'approvalRule_scale', 'condorcetEv_scale', 'condorcetSet_scale', 'rankedToCondorcetVotes_linear',
-            'condorcetRule_scale', 'condorcetSetRule_scale', 'benham_scale', 'tideman_scale', 'tidemanN_scale',
+            'condorcetRule_scale', 'condorcetSetRule_scale', 'rankedToCondorcetVotesNoBottom_linear', 'condorcetRuleNoBottom_scale',
+            'condorcetSetRuleNoBottom_scale', 'benham_scale', 'tideman_scale', 'tidemanN_scale',
             'spav_scale', 'pav_scale', 'pav_fresh_scale',
             'scoreVoting_scale', 'scoreAggregate_scale', 'majorityJudgmentPlus_scale', 'star_scale',
             'bucklin_scale', 'bucklinWhole_scale', 'preferenceAddition_scale', 'bucklinSeats_scale', 'oklahoma_scale',
@@ -31,6 +32,7 @@ PROVED_FAMILIES = ['plurality', 'ha_d_hondt', 'ha_sainte_lague', 'ha_imperiali',
                    'approval_pav', 'approval_spav',
                    'score_mean', 'score_sum0', 'score_median', 'majority_judgment_plus', 'star', 'bucklin',
                    'oklahoma', 'baldwin', 'stv_gregory_hare', 'stv_gregory_hare_strict', 'stv_gregory_imperiali']
+PROVED_FAMILIES += [f + '_sparse' for f in PROVED_FAMILIES if f.startswith('condorcet_') or f in ('smith_set', 'schwartz_set')]
 # proved for a part of the family's parameter space only: the rest stays listed as unproved
 PARTLY_PROVED = {}
 MULTIPLIERS = [2, 3, 7, 10 ** 6, 10 ** 25 + 7]
@@ -53,10 +55,10 @@ def enc_ranked(prof):
     return [[[({'set': it} if isinstance(it, list) else it) for it in b], w] for b, w in prof]
 
 
-def pairwise_of(prof):
-    """the pairwise dictionary the real RankedToCondorcetVotes() makes of a (protocol) ranked profile, insertion order kept"""
+def pairwise_of(prof, at_bottom=True):
+    """the pairwise dictionary the real RankedToCondorcetVotes(unranked_at_bottom) makes of a (protocol) ranked profile, insertion order kept"""
     import votelib.convert as cv
-    d = cv.RankedToCondorcetVotes().convert(fam_mod.build('ranked', prof, NAMES))
+    d = cv.RankedToCondorcetVotes(unranked_at_bottom=at_bottom).convert(fam_mod.build('ranked', prof, NAMES))
     return [[NAMES.i(a), NAMES.i(b), num_str(c)] for (a, b), c in d.items()]
 
 
@@ -239,6 +241,29 @@ def generate(rng, tier):
                 k = [2, 3, 12, 10 ** 6, 10 ** 25 + 7, 7][t % 6]
                 yield {'op': 'scale', 'family': f.name, 'prof': [[i, num_str(vals[i])] for i in order], 'n': rng.choice([4, 11, 20]),
                        'k': str(k), '_tags': ['scale', 'pure_total_below_one'] + (['beyond_2^53'] if k > 2 ** 53 else [])}
+    # every scale-free rule on party totals: RATIONAL counts (vote shares summing to one, thirds, sevenths) and tiny electorates with
+    # fewer voters than seats - the quota, the quotients and the threshold product all lie below one vote at the base scale and far
+    # above it after scaling, so an absolute constant (0 or 1 vote) compared with a scale-free quantity shows
+    for f in F:
+        if f.vtype == 'simple' and f.scale_free and not f.name.startswith('pure_proportionality'):
+            for t in range(10 if tier == 'quick' else 120):
+                m = rng.randint(2, 4)
+                if t % 2 == 0:
+                    d = rng.choice([7, 12, 60, 100, 1000])
+                    cuts = sorted(rng.sample(range(1, d), m - 1))
+                    vals = [Fraction(b - a, d) for a, b in zip([0] + cuts, cuts + [d])]      # shares summing to exactly one
+                    if t % 4 == 0:
+                        vals = [v / rng.choice([2, 3, 10])for v in vals]
+                    tag = 'shares_below_one_vote'
+                else:
+                    vals = [rng.choice([0, 1, 1, 2]) for _ in range(m)]
+                    if sum(vals) == 0:
+                        vals[0] = 1
+                    tag = 'fewer_voters_than_seats'
+                n = rng.randint(sum(1 for v in vals if v), 12) if f.kind == 'dist' else rng.randint(1, m)
+                k = [2, 3, 7, 100, 10 ** 6, 10 ** 25 + 7][t % 6]
+                yield {'op': 'scale', 'family': f.name, 'prof': [[i, num_str(v)] for i, v in enumerate(vals)], 'n': n, 'k': str(k),
+                       '_tags': ['scale', tag] + (['beyond_2^53'] if k > 2 ** 53 else [])}
     # exactly half is not a majority, exactly the quota is the quota - at magnitudes where a float quota is off by 10^9:
     # Bucklin/Oklahoma: the first choice of exactly half of the voters, everybody's second choice wins in round 2;
     # STV-Gregory-Hare: a candidate holding exactly the Hare quota on first preferences
@@ -404,9 +429,11 @@ def model_line(case):
             return {'op': 'c11_positional', 'scorer': SCORERS[f], 'votes': enc_ranked(prof), 'n': case['n']}
         if f in ('approval_av', 'approval_sav'):
             return {'op': 'c11_approval', 'split': f == 'approval_sav', 'votes': enc_approval(prof), 'n': case['n']}
-        if f in CONDORCET_SETS or f.startswith('condorcet_'):
+        if f.endswith('_sparse') or f in CONDORCET_SETS or f.startswith('condorcet_'):
+            ab = fams()[f].at_bottom
+            f = f[:-len('_sparse')] if f.endswith('_sparse') else f
             name = CONDORCET_SETS.get(f) or f[len('condorcet_'):]
-            return {'op': 'c11_condorcet', 'name': name, 'profile': prof, 'votes': pairwise_of(prof), 'n': case['n']}
+            return {'op': 'c11_condorcet', 'name': name, 'profile': prof, 'votes': pairwise_of(prof, ab), 'n': case['n'], 'bottom': ab}
         if f in ('stv_gregory_hare', 'stv_gregory_hare_strict', 'stv_gregory_imperiali'):
             return {'op': 'stv_eval', 'method': 'gregory', 'quota': 'imperiali' if f.endswith('imperiali') else 'hare',
                     'accept_equal': not f.endswith('_strict'), 'mandatory': False, 'step': -1,
